@@ -94,6 +94,16 @@ def lreq_py(cfg, r):
         d["path"] = {"segment": [{"class": 2}, {"instance": 1}]}
         d["service"] = 0x0A
         return d
+    if r["svc"] in ("gal", "gaa"):
+        c, i = (cfg["tags"][r["tag"] - 1]["cia"][:2] if r["tag"] else ((119, 1) if r["mode"] == "noclass" else (2, 7)))
+        d["path"] = {"segment": [{"class": c}, {"instance": i}]}
+        if r["svc"] == "gal":
+            d["service"] = 0x03
+            d["get_attribute_list"] = list(r["attrs"])
+        else:
+            d["service"] = 0x01
+            d["get_attributes_all"] = True
+        return d
     if r["tag"] == 0:
         segs = [{"symbolic": "NOPE"}]
     elif r["mode"] == "sym":
@@ -134,7 +144,7 @@ def parser_code(t):
 
 def lrpy_py(cfg, r, o, t):
     """spec outcome -> cpppo reply dotdict"""
-    svc = {"read": 0x4C, "readf": 0x52, "write": 0x4D, "writef": 0x53, "gas": 0x0E, "sas": 0x10}[r["svc"]] | 0x80
+    svc = {"read": 0x4C, "readf": 0x52, "write": 0x4D, "writef": 0x53, "gas": 0x0E, "sas": 0x10, "gal": 0x03, "gaa": 0x01}[r["svc"]] | 0x80
     d = {"service": svc}
     if o["k"] in ("ok", "okbytes"):
         d["status"] = o["st"]
@@ -148,5 +158,5 @@ def lrpy_py(cfg, r, o, t):
         ctx = "read_tag" if r["svc"] == "read" else "read_frag"
         d[ctx] = {"type": parser_code(t), "data": [sim.dec_elem(t, v) for v in o["data"]]}
     if o["k"] == "okbytes":
-        d["get_attribute_single"] = {"data": list(o["data"])}
+        d[{"gal": "get_attribute_list", "gaa": "get_attributes_all"}.get(r["svc"], "get_attribute_single")] = {"data": list(o["data"])}
     return d
